@@ -237,6 +237,9 @@ func c04onceOrd(text string, choose verifseam.Chooser, ordered bool) c04outcome 
 		if ierr == nil {
 			return c04outcome{"error-swallowed", "an expansion fails (" + werr.Error() + ") but Interpolate returned nil"}
 		}
+		if warning.Is(ierr) {
+			return c04outcome{"error-downgraded-to-warning", "an expansion fails (" + werr.Error() + ") and Interpolate reports it as a mere warning: " + ierr.Error()}
+		}
 		return c04outcome{}
 	}
 	if ierr != nil {
